@@ -12,7 +12,7 @@ from ..execmodel import col_letters
 
 PYLIKE = ['getX(1)', 'os.systeM("ls")', 'eval(1)', 'os.system("x")', 'f(\n)', 'aB(2)', "__import__('os')", 'x1(2)', 'exec(compile("a","b","exec"))', 'lambda_(x)', 'Sum(1)', 'sUM(1)', 'getattr(a,b)',
           'a(b)c(d)', 'open("f").read()', 'é_x(1)', 'print(\t1)', '_(1)', '9a(1)', 'aSUM(1)', 'sumIF(1,2)', 'x = y(z)', 'call()\n', 'a.b.c(1)',
-          '_RUN(1)', '__IMPORT__("os")', '7Z(1)', '_X9(2)', 'eval(' + 'x' * 130 + ')', 'run(' + '1, ' * 40 + '\n 2)', 'longname_' * 12 + '(1)']          # long fragments are reported whole
+          'x' * 9000 + ' eval(1)', 'word ' * 2500 + "__import__('os')", '_RUN(1)', '__IMPORT__("os")', '7Z(1)', '_X9(2)', 'eval(' + 'x' * 130 + ')', 'run(' + '1, ' * 40 + '\n 2)', 'longname_' * 12 + '(1)']          # long fragments are reported whole
 INNOCENT = ['SUM(A1)', 'IF(A1,1,2)', 'LOG10(5)', 'plain text', '(no call)', 'a (b)', 'print (1)', 'ROUND(SUM(A1:A2),1)', 'X_Y(1)', 'A1(2)', 'f(', 'g)', 'h()'[:1] + ' ()',
             'just words', '100%', 'a+b', 'TRUE', 'VLOOKUP(1,A1:B2,2,FALSE)', 'text with ) then (', 'ABC(', 'DAYS360(1,2)', 'N(1)']
 MIXED = ['SUM(eval(1))', 'eval(SUM(1))', 'IF(a(1),2,3)']          # an upper-case call and other call syntax in one cell: the statement leaves these open
